@@ -66,7 +66,9 @@ def agree : St → World → List WOp → Bool
   | _, _, [] => true
   | s, w, op :: rest =>
     let (s', out) := IovecFam.step s (words op)
-    let driverStuck := s'.dead || out == ["bad-op"]
+    -- (a wrong-size backfill of a pending placeholder is a documented panic that the harness catches:
+    -- the driver answers `R panicked` and keeps the world unchanged; `World.step` has no successor)
+    let driverStuck := s'.dead || out == ["bad-op"] || out.head? == some "R panicked"
     match w.step op with
     | none => driverStuck
     | some w' =>
